@@ -37,6 +37,16 @@ SITES = [
           ["alpha", "phi", "wavelength", "angular_spread", "p"],
           dict(_ENV, dchi_dk="(dchiDk alpha phi wavelength p)", dchi_dphi="(dchiDphi alpha phi wavelength p)"), param_types=_PT),
 ]
+# the Wiener branch of CTF._evaluate_from_angular_grid (outside the property's quantifier; documented by theorems): over ℝ for a
+# real-valued transfer function and over ℂ (translator mode "cplx") for the complex one the code actually applies it to
+SITES += [
+    dict(gen="Wiener", name="wiener", file=_F, func="CTF._evaluate_from_angular_grid", select=("return", 0), params=["a", "snr"],
+         params_map={"array": "a", "self._wiener_snr": "snr"}, modes=["real", "cplx"]),
+    dict(gen="Wiener", name="flipPhaseRe", file=_F, func="CTF._evaluate_from_angular_grid", select=("return", 1), params=["re", "im"],
+         params_map={"array.real": "re", "array.imag": "im"}, ext=True, complex_part="re", modes=["real"]),
+    dict(gen="Wiener", name="flipPhaseIm", file=_F, func="CTF._evaluate_from_angular_grid", select=("return", 1), params=["re", "im"],
+         params_map={"array.real": "re", "array.imag": "im"}, ext=True, complex_part="im", modes=["real"]),
+]
 EXTRA_IMPORTS = {
     "EnvelopeR": ["import AbtemVerif.Lib.PyPreludeXR", "import AbtemVerif.Model.PolarCoeffs"],
     "EnvelopeF": ["import AbtemVerif.Model.PyPreludeX", "import AbtemVerif.Model.PolarCoeffs"],
